@@ -1,6 +1,7 @@
 package harness
 
 import (
+	"github.com/emersion/go-sasl"
 	"bytes"
 	"fmt"
 	"strings"
@@ -112,7 +113,7 @@ func newMemEnv(r *R, o memOpts) *memEnv {
 	e.mem.AddUser(e.user)
 	e.srv = imapserver.New(&imapserver.Options{
 		NewSession: func(*imapserver.Conn) (imapserver.Session, *imapserver.GreetingData, error) {
-			return e.mem.NewSession(), nil, nil
+			return &memSASLSession{user: e.user}, nil, nil
 		},
 		Caps:         o.caps,
 		InsecureAuth: o.insecureAuth,
@@ -188,4 +189,45 @@ func serverCaps(variant int) imap.CapSet {
 	default:
 		return imap.CapSet{imap.CapIMAP4rev1: {}, imap.CapLiteralPlus: {}, imap.CapMove: {}, imap.CapNamespace: {}, imap.CapUnauthenticate: {}}
 	}
+}
+
+// memSASLSession is imapmemserver's server session (a UserSession that appears on login) plus the
+// multi-step SASL mechanism LOGIN, so that AUTHENTICATE exchanges with non-empty challenges run
+// against the real backend too.
+type memSASLSession struct {
+	*imapmemserver.UserSession // nil until login
+	user *imapmemserver.User
+}
+
+var _ imapserver.SessionSASL = (*memSASLSession)(nil)
+var _ imapserver.SessionIMAP4rev2 = (*memSASLSession)(nil)
+
+func (s *memSASLSession) Login(username, password string) error {
+	if username != "user" {
+		return imapserver.ErrAuthFailed
+	}
+	if err := s.user.Login(username, password); err != nil {
+		return err
+	}
+	s.UserSession = imapmemserver.NewUserSession(s.user)
+	return nil
+}
+
+func (s *memSASLSession) Close() error { return s.UserSession.Close() }
+
+func (s *memSASLSession) AuthenticateMechanisms() []string { return []string{"PLAIN", "LOGIN"} }
+
+func (s *memSASLSession) Authenticate(mech string) (sasl.Server, error) {
+	switch mech {
+	case "PLAIN":
+		return sasl.NewPlainServer(func(identity, username, password string) error {
+			if identity != "" && identity != username {
+				return imapserver.ErrAuthFailed
+			}
+			return s.Login(username, password)
+		}), nil
+	case "LOGIN":
+		return sasl.NewLoginServer(func(username, password string) error { return s.Login(username, password) }), nil
+	}
+	return nil, &imap.Error{Type: imap.StatusResponseTypeNo, Text: "unsupported mechanism"}
 }
